@@ -1,6 +1,31 @@
 use crate::models::TypeStructure;
 use std::collections::{HashMap, HashSet};
 
+/// Split a comma-separated list of type strings at top-level commas only.
+/// Commas nested inside `<...>`, `(...)` or `[...]` belong to an inner type,
+/// e.g. `HashMap<String, User>, String` -> [`HashMap<String, User>`, `String`].
+/// Empty segments (such as the one after a trailing comma) are dropped.
+pub(crate) fn split_top_level_commas(inner: &str) -> Vec<String> {
+    let mut parts = Vec::new();
+    let mut depth: i32 = 0;
+    let mut start = 0;
+
+    for (i, ch) in inner.char_indices() {
+        match ch {
+            '<' | '(' | '[' => depth += 1,
+            '>' | ')' | ']' => depth -= 1,
+            ',' if depth == 0 => {
+                parts.push(inner[start..i].trim().to_string());
+                start = i + 1;
+            }
+            _ => {}
+        }
+    }
+    parts.push(inner[start..].trim().to_string());
+    parts.retain(|p| !p.is_empty());
+    parts
+}
+
 /// Type resolver for mapping Rust types to TypeScript types
 #[derive(Debug)]
 pub struct TypeResolver {
@@ -59,11 +84,11 @@ impl TypeResolver {
     fn extract_result_ok_type(&self, rust_type: &str) -> Option<String> {
         if rust_type.starts_with("Result<") && rust_type.ends_with('>') {
             let inner = &rust_type[7..rust_type.len() - 1];
-            if let Some(comma_pos) = inner.find(',') {
-                let ok_type = inner[..comma_pos].trim();
-                Some(ok_type.to_string())
-            } else {
-                Some(inner.to_string())
+            // The ok type ends at the first top-level comma; commas nested in
+            // generic arguments or tuples belong to the ok type itself
+            match split_top_level_commas(inner).into_iter().next() {
+                Some(ok_type) => Some(ok_type),
+                None => Some(inner.to_string()),
             }
         } else {
             None
@@ -127,7 +152,7 @@ impl TypeResolver {
             if inner.trim().is_empty() {
                 return Some(vec![]);
             }
-            let types: Vec<String> = inner.split(',').map(|s| s.trim().to_string()).collect();
+            let types: Vec<String> = split_top_level_commas(inner);
             Some(types)
         } else {
             None
@@ -143,27 +168,10 @@ impl TypeResolver {
 
     /// Parse two type parameters separated by comma (for HashMap, BTreeMap)
     fn parse_two_type_params(&self, inner: &str) -> Option<(String, String)> {
-        let mut depth = 0;
-        let mut comma_pos = None;
-
-        for (i, ch) in inner.char_indices() {
-            match ch {
-                '<' => depth += 1,
-                '>' => depth -= 1,
-                ',' if depth == 0 => {
-                    comma_pos = Some(i);
-                    break;
-                }
-                _ => {}
-            }
-        }
-
-        if let Some(pos) = comma_pos {
-            let key_type = inner[..pos].trim().to_string();
-            let value_type = inner[pos + 1..].trim().to_string();
-            Some((key_type, value_type))
-        } else {
-            None
+        let mut parts = split_top_level_commas(inner).into_iter();
+        match (parts.next(), parts.next()) {
+            (Some(key_type), Some(value_type)) => Some((key_type, value_type)),
+            _ => None,
         }
     }
 
